@@ -127,6 +127,9 @@ def _charcat(ch):
 
 def diff_label(expected, r, g):
     """expected: the Python value; r, g canon outcomes"""
+    if g[0] == "import-failed":
+        m = re.search(r'"exc", "(\w+)"', str(g[1]))
+        return "import-failed:%s" % (m.group(1) if m else "?")
     if g[0] != "ok":
         return "%s:%s" % (g[0], g[1] if len(g) > 1 and isinstance(g[1], str) else "")
     if r[0] != "ok":
